@@ -1108,6 +1108,21 @@ def git_batch(acc: Acc, algo, items):
                     raise HarnessError("ORACLE-DISAGREEMENT: git hash-object %s vs reference %s for %s %r" % (gid, rid, kind, it[2]))
                 by_id[rid] = it
                 acc.count("git_hash_object_agreements")
+        for it in items:
+            # git mktag: git's own strict acceptance test for tags (no batch mode: one process per tag)
+            if it[0] != "tag":
+                continue
+            p = git(["mktag"], cwd=G, input=it[2], check=False)
+            must = it[1]["tagger"] is not None and is_clean("tag", it[1]) and it[1]["name"] in (b"v1.0", b"a/b", b"\xc3\xa9")
+            if p.returncode == 0:
+                if p.stdout.strip() != ref.object_id(algo, b"tag", it[2]):
+                    raise HarnessError("ORACLE-DISAGREEMENT: git mktag names %r %s" % (it[2], p.stdout))
+                acc.count("git_mktag_accepts")
+            else:
+                m = re.search(rb"does not pass fsck: (\w+):", p.stderr)
+                acc.outcome("git:mktag:refuses:%s" % (m.group(1).decode() if m else "other"))
+                if must:
+                    raise HarnessError("ORACLE-DISAGREEMENT: git mktag refuses a canonical tag %r: %r" % (it[2], p.stderr))
         trees = [it for it in items if it[0] == "tree"]
         for it, gid in zip(trees, g_mktree_batch(G, [it[1] for it in trees])):
             if gid != ref.object_id(algo, b"tree", it[2]):
